@@ -284,6 +284,8 @@ theorem splitLoop_never_panics (spec : Text) (fuel i cs : Nat) (acc : List Text)
         simp only [hslice]
         have hch : ch = ' ' := eq_of_beq_char hsp
         split
+        · exact ih (i + 1) cs acc hf' (by omega) ⟨k, by omega, hcs⟩      -- an operator waiting for its version
+        split
         · cases hyphenAhead (charIndices spec 0) i with
           | true => simp only [if_true]; exact ih (i + 3) cs acc hf' (by omega) ⟨k, by omega, hcs⟩
           | false =>
